@@ -15,10 +15,18 @@ def pExc : Wire.P Exc := do
   | "KeyboardInterrupt" => pure .keyboardInterrupt
   | _ => failure
 
+def pExcAny : Wire.P Exc := do
+  let t ← word
+  match [Exc.stopIteration, .attributeError, .valueError, .sizeError, .stopDefinite, .finalizedIter, .boom,
+      .keyboardInterrupt].find? (fun e => excName e == t) with
+  | some e => pure e
+  | none => failure
+
 def pTarget : Wire.P Target := do
   let t ← word
   match t with
   | "render" => pure .render | "validate" => pure .validate | "write" => pure .write
+  | "resolve" => pure .resolve
   | _ => failure
 
 def pCache : Wire.P CacheArg := do
@@ -39,6 +47,9 @@ def pOp : Wire.P Op := do
   let t ← word
   match t with
   | "render" => pure .render
+  | "initRender" => do
+    let it ← bool; let fin ← bool; let cs ← bool; let asc ← bool; let rp ← bool
+    pure (.initRender it fin cs asc rp)
   | "draw" => do
     let a ← bool; let cs ← bool; let l ← int; let c ← pCache; let b ← nat
     pure (.draw a cs l c b)
@@ -92,6 +103,15 @@ def handler : Handler := fun op args =>
       let (w, outs) := runOut (init fc) h []
       let objs := (List.range w.nObjs).map (objStr w)
       pure ("ok " ++ String.intercalate "|" outs ++ " # " ++ String.intercalate " " objs)) args
+  -- `RenderIterator._init`: what it derives from its arguments
+  | "iterparams" => Wire.run (do
+      let fc ← nat; let l ← int; let c ← pCache
+      let w := init fc
+      pure (match (run sem (initChecks l c) none w).2.2 with
+        | some e => "err " ++ excName e
+        | none => s!"ok {if infOf fc l then "inf" else toString (loopOf fc l)} {fmtBool (cachedOf fc c)} {fmtBool (unbounded fc l)}")) args
+  -- `isinstance(e, Exception)` as the model has it
+  | "isexc" => Wire.run (do let e ← pExcAny; pure ("ok " ++ fmtBool e.isException)) args
   | _ => none
 
 end TIV.C10
